@@ -607,6 +607,8 @@ class CaseResult:
     start_error: str | None = None
     record: Any = None  # PersistentHandler after quiescence
     record_late: Any = None  # after the idle timers have fired
+    record_restart: Any = None  # after a process crash and `_on_server_start` on a fresh stack over the same store
+    restart_writes: list = field(default_factory=list)
     entered: list = field(default_factory=list)  # event type names that entered the server adapter for the run
     writes: list = field(default_factory=list)
     status_trace: list = field(default_factory=list)
@@ -802,8 +804,26 @@ def run_case(case: dict) -> CaseResult:
             for _ in range(10):
                 await asyncio.sleep(0)
             res.record_late = _snap(await st.handler("h1"))
+            if case.get("restart"):
+                st2 = await st.crash()
+                n0 = len(fs.writes)
+                rf = int(case.get("restart_fault", 0))
+                if rf:
+                    base_calls = fs.calls["uhs"]
+                    fs.plan = {"uhs": lambda i, info: i < base_calls + rf}
+                else:
+                    fs.plan = {}
+                state["done"] = True
+                await st2.start()
+                for _ in range(30):
+                    await asyncio.sleep(0)
+                res.record_restart = _snap(await st2.handler("h1"))
+                res.restart_writes = list(fs.writes[n0:])
+                res.writes = list(fs.writes[:n0])
+                st = st2
         finally:
-            res.writes = list(fs.writes)
+            if res.record_restart is None:
+                res.writes = list(fs.writes)
             res.status_trace = list(fs.status_trace)
             res.early_terminal_events = list(fs.early_terminal_events)
             try:
